@@ -222,9 +222,11 @@ def run(tier, seed):
                    'reindent + one sub-option}', fam, 1, base + sub1),
                   ('seed x every reindent sub-option combination (288)', set(), 0, reindent_product())]
     else:
-        blocks = [('<=2 of {comment, literal, style, gap toggle} x {strip_whitespace, spaces, reindent} (pairs that include a '
-                   'derivation alternative are left to the <=1 blocks: they are most of the 3.2 M pairs and add least)',
-                   set(fam) - {'der'}, 2, base),
+        blocks = [('<=2 of {comment, gap toggle} x {strip_whitespace, spaces, reindent}', {'cm', 'ws0'}, 2, base),
+                  ('<=2 of {literal, style, uniform whitespace style} x {strip_whitespace, spaces, reindent}',
+                   {'lit', 'style', 'wstyle'}, 2, base),
+                  # (pairs across these groups and pairs with a derivation alternative - most of the ~3 M pairs - are
+                  # left to the <=1 blocks)
                   ('<=1 of {derivation, comment, literal, style, gap toggle} x {strip_whitespace, spaces, reindent}', fam, 1, base),
                   ('<=1 deviation x reindent + <=2 sub-options', fam, 1, sub1 + sub2),
                   ('<=1 of {style, derivation} x every reindent sub-option combination (288)', {'style', 'der'}, 1,
